@@ -4,7 +4,7 @@
 From Coq Require Import List NArith Bool Arith Sorted.
 From Coq Require Import Strings.Byte.
 Require Import BS.Bytes BS.Common BS.Api BS.Layout BS.Format BS.FormatFacts BS.Spec BS.SpecStep.
-Require Import BS.FS BS.FSFacts BS.Meta BS.MetaFacts BS.Header BS.Reader BS.ReaderFacts BS.Index BS.Data BS.DataFacts BS.Seek BS.Series BS.SeriesFacts.
+Require Import BS.FS BS.FSFacts BS.Meta BS.MetaFacts BS.Header BS.Reader BS.ReaderFacts BS.Index BS.Data BS.DataFacts BS.Seek BS.Series BS.SeriesFacts BS.ExtractFacts.
 Import ListNotations.
 
 (* (F) the sections of an encoding are exactly the sections the writer opened, at their offsets *)
@@ -27,3 +27,21 @@ Proof. exact push_data_ok. Qed.
 Print Assumptions C06_update_keeps_index.
 (* partial: rebuilt index = sections (extract_entries, the chunk-carry argument of C01 applied to
    Index.extract_loop) and the validate-or-rebuild decision on open are not proved yet. *)
+
+(* (I refines F) the index rebuild (extract_entries: the chunked scan with its carry of an unfinished section,
+   after the fix) finds exactly the sections of the data region, for every well-formed series of any length -
+   sections that straddle one or several 16 KiB scan boundaries included *)
+Theorem C06_rebuild : forall p l, wf_series p l ->
+  extract_entries_inner p (encode p l) 0 (len (encode p l)) = Ok (sections p (encode p l)).
+Proof. exact extract_entries_encode. Qed.
+Print Assumptions C06_rebuild.
+(* the chunked loop is one pass of meta() over the slots, for any bytes and any chunk size that is a multiple of the line size *)
+Theorem C06_chunked_scan_is_one_pass : forall p (n chunkn:nat) (region:list byte) (pos to_read g:nat) st acc,
+  chunkn > 0 -> chunkn mod (p + 2) = 0 -> to_read mod (p + 2) = 0 -> pos + to_read <= length region ->
+  to_read <= n * chunkn ->
+  wf_mst p g st -> Forall (fun s => length s = p + 2) (mheld_slots st) ->
+  extract_loop n p (N.of_nat chunkn) region (N.of_nat pos) (N.of_nat to_read) (N.of_nat (g * (p + 2)))
+               (concat (mheld_slots st)) acc
+  = Ok (acc ++ map (to_entry p) (fst (meta_scan p g st [] (chunks (p + 2) (firstn to_read (skipn pos region)))))).
+Proof. exact extract_loop_is_scan. Qed.
+Print Assumptions C06_chunked_scan_is_one_pass.
